@@ -446,6 +446,9 @@ class Compiler(object):
                 resolved_member = self.resolve_type_descriptor(member,
                                                                module_name)
 
+                if resolved_member['type'] == 'BOOLEAN':
+                    self.pre_process_default_value_boolean(member)
+
                 if resolved_member['type'] == 'BIT STRING':
                     self.pre_process_default_value_bit_string(member,
                                                               resolved_member)
@@ -510,6 +513,13 @@ class Compiler(object):
             if len(default) % 2 == 1:
                 default += '0'
             member['default'] = binascii.unhexlify(default)
+
+    def pre_process_default_value_boolean(self, member):
+        # The parser converts TRUE and FALSE only when the type of the
+        # member is written BOOLEAN, not when it is a reference to a
+        # BOOLEAN type.
+        if member['default'] in ['TRUE', 'FALSE']:
+            member['default'] = (member['default'] == 'TRUE')
 
     def pre_process_parameterization_step_1(self, types, module_name):
         """X.683 parameterization pre processing - step 1.
